@@ -40,6 +40,8 @@ def pick_channels(rng, tree):
     if r < 0.45 or not tops:
         return []
     if r < 0.7:
+        if len(tops) > 1 and rng.random() < 0.5:
+            return rng.sample(tops, len(tops))      # every channel, in either order
         return rng.sample(tops, rng.randint(1, len(tops)))
     one = rng.choice(full)
     return [one]
